@@ -1401,6 +1401,35 @@ package router
 //@   ensures m != nil ==> fresh(m) && wfMsg(m) && !attr(released, m)
 //@   callsite ReadFrom?: [C01:request-body-read-through-the-64k-limit] arg1 == gLR && gN == 65535
 //@   callsite GetBuf?: [C01:bounded-decode-buffer] arg0 <= 65535
+// (as in the net/http handler) GET: the "dns" query argument, base64url-decoded into this call's own buffer; POST:
+// the body stream of this request; the message decoded from exactly those bytes is returned; otherwise one status
+//@   ghost gArg []byte = nil
+//@   ghost gBuf pool.Buffer = nil
+//@   ghost gBody []byte = nil
+//@   ghost gStream io.Reader = nil
+//@   ghost gM *dnsmsg.Msg = nil
+//@   ghost gUErr error = nil
+//@   ghost nSt int = 0
+//@   ghost gCode int = 0
+//@   ghost nUnpack int = 0
+//@   ghost nPeekDns int = 0
+//@   aftercall Args.Peek?: gArg = ret0
+//@   oncall Args.Peek?: nPeekDns = nPeekDns + 1
+//@   aftercall GetBuf?: gBuf = ret0
+//@   aftercall Bytes?: gBody = ret0
+//@   aftercall BodyStream?: gStream = ret0
+//@   oncall UnpackMsg?: nUnpack = nUnpack + 1
+//@   aftercall UnpackMsg?: gM = ret0
+//@   aftercall UnpackMsg?: gUErr = ret1
+//@   oncall SetStatusCode?: nSt = nSt + 1
+//@   oncall SetStatusCode?: gCode = arg1
+//@   callsite Args.Peek?: [C03:the-dns-argument] arg1 == "dns"
+//@   callsite Decode?: [C03:base64url-text-decoded-into-its-own-buffer] arg1 == gBuf && arg2 == gArg && nPeekDns == 1
+//@   callsite LimitReader?: [C03:body-of-this-request] arg0 == gStream
+//@   callsite BodyStream?: [C03:body-of-this-request] arg0 == &ctx.Request
+//@   callsite UnpackMsg?: [C03:query-decoded-from-exactly-those-bytes] nUnpack == 0 && (arg0 == gBuf || arg0 == gBody)
+//@   ensures [C03:the-decoded-query-is-returned] m != nil ==> nUnpack == 1 && m == gM && gUErr == nil && nSt == 0
+//@   ensures [C03:no-query-exactly-one-status] m == nil ==> nSt == 1 && (gCode == 400 || gCode == 501)
 //@ func (h *fasthttpHandler) HandleFastHTTP(ctx *fasthttp.RequestCtx)
 //@   props C03 C20 C01 C09 C15
 //@   requires h != nil && routerReady(h.r) && h.logger != nil && ctx != nil
